@@ -28,6 +28,17 @@ omitted / misattributed (to nobody, to another key of the bundle) / bit-flipped 
 ANOTHER bundle / replaced by another key's signature under this key's identifier.  Judged through `validate_request` and
 `check_proof_of_possession` on the whole request against (a) construction, (b) the independent oracle applied to every
 bundle, (d) the model on the same request (`validate_request`, `ksr_check check_proof_of_possession`).
+Whole signature SETS (`set_copy_requests`): at every ordered (source, target) pair of bundle positions — source before and after target — the
+target carries a verbatim copy of the source's signature set (the signatures' own inception / expiration included) with (a) the source's
+key set: a control that must be ACCEPTED ("with the signature's own stated fields"), (b) any other key set — the target's own different
+one, a key added without signature, one key with a modulus bit changed (same / other identifier), one key replaced (same / other
+identifier) — which must be REFUSED.  For every whole request the verdict of `check_proof_of_possession` is also compared with the
+verdicts of fresh calls on each of its bundles ALONE: the verdict on bundle j must not depend on bundles < j.
+Environment independence (`tz_bundle_stream`, `tz_request_stream`; harness/envtz.py): honest bundles and requests whose signature times lie
+inside / outside the daylight-saving period of America/New_York, Australia/Lord_Howe, Asia/Kolkata, Europe/Berlin and on a +-1 h lattice
+around the DST switches (requests straddle a switch) are judged with the PROCESS time zone switched to that zone (lib.ProcessTZ): honest
+ones must be accepted, time fields moved by +-1 s / +-1 h / +- the zone's offset, a flipped signature bit and an omission refused; the
+octets /repo builds must equal dnspython's (computed from integers) and the model's; the model must agree on every verdict.
 State carried between requests (`pair_stream`): request A, then request B in the SAME process (B re-using A's identifiers
 with a signature missing / other key material / other signers / a same-tag stranger key; A tampered and B honest; B == A);
 B's verdict must be the property's, the model's, and the verdict of a FRESH process that sees B alone.
@@ -44,6 +55,7 @@ import subprocess
 import sys
 from typing import Any
 
+import envtz
 import lib
 from lib import Result, bundle_j, hexs, request_j, request_policy_j, run_driver, run_impl, same_outcome, us_dt
 
@@ -55,7 +67,8 @@ ASSUMPTIONS = [
     "dnspython 2.8 is a correct independent implementation of RFC 4034 section 3.1.8.1 / 6.3",
     "no two keys of a bundle have identical RDATA (an RRset is a set; see DESIGN.md section 5)",
 ]
-TRUSTED = ["dnspython as TBS oracle and `cryptography` (called directly) as verification oracle in corr_C07"]
+TRUSTED = ["dnspython as TBS oracle and `cryptography` (called directly) as verification oracle in corr_C07",
+           "TZ + tzset (lib.ProcessTZ, which verifies libc's localtime follows) as the way to put the process into another time zone"]
 
 SEC = 10**6
 INC = 1_500_000_000 * SEC
@@ -517,11 +530,12 @@ def evaluate_bundle(rec: Any, case: dict[str, Any]) -> dict[str, Any]:
 
     bundle = mk_bundle(case)
     rec.take()
-    vs = run_impl(lambda: validate_signatures(bundle))
-    req, pol = one_bundle_request(bundle)
-    pop = run_impl(lambda: check_proof_of_possession(req, pol, _log))
-    records = dedupe(rec.take())
-    tbs = [run_impl(lambda s=s: make_raw_rrsig(s, bundle.keys), hexs) for s in bundle.signatures]
+    with envtz.zone(case.get("tz")):  # the process time zone this case is to be judged under (None: as the process is)
+        vs = run_impl(lambda: validate_signatures(bundle))
+        req, pol = one_bundle_request(bundle)
+        pop = run_impl(lambda: check_proof_of_possession(req, pol, _log))
+        records = dedupe(rec.take())
+        tbs = [run_impl(lambda s=s: make_raw_rrsig(s, bundle.keys), hexs) for s in bundle.signatures]
     return {"bundle": bundle, "validate_signatures": vs, "check_proof_of_possession": pop, "records": records, "tbs": tbs}
 
 
@@ -579,7 +593,7 @@ def roll_layouts(nb: int, r: Any) -> list[tuple[str, list[list[int]]]]:
     return out
 
 
-def honest_request(members: list[tuple[Any, int]], layout: list[list[int]], names: list[str] | None = None) -> list[dict[str, Any]]:
+def honest_request(members: list[tuple[Any, int]], layout: list[list[int]], names: list[str] | None = None, start: int = INC) -> list[dict[str, Any]]:
     """bundle cases: bundle i holds the keys layout[i] (one identifier per key throughout), incepts at INC + i * 10 d, and every
     key of the bundle signs the bundle's whole key set with the bundle's own times"""
     import keys as fx
@@ -589,7 +603,7 @@ def honest_request(members: list[tuple[Any, int]], layout: list[list[int]], name
     out = []
     for bi, idx in enumerate(layout):
         ks = [dict(specs[i]) for i in idx]
-        inc, exp = INC + bi * STEP, EXP + bi * STEP
+        inc, exp = start + bi * STEP, start + (EXP - INC) + bi * STEP
         out.append({"keys": ks, "sigs": [sign(members[i][0], specs[i], ks, inc=inc, exp=exp) for i in idx], "inc": inc, "exp": exp, "members": list(idx)})
     return out
 
@@ -646,20 +660,83 @@ def tampered_requests(r: Any, bundles: list[dict[str, Any]], members: list[tuple
     return out
 
 
+def flipped_key(k: dict[str, Any], r: Any, ident: str | None = None) -> dict[str, Any]:
+    """`k` with ONE bit of its key material changed (RSA: a bit inside the modulus, so that size and exponent stay what the ZSK policy
+    declares), the key tag recomputed (RFC 4034 App. B transcription in harness/keys.py), optionally under another identifier"""
+    import keys as fx
+
+    blob = bytearray(base64.b64decode(k["pk"]))
+    lo = (1 + blob[0]) * 8 + 8 if k["alg"] in (8, 10) else 0
+    bit = r.randrange(lo, len(blob) * 8 - 8)
+    blob[bit // 8] ^= 0x80 >> (bit % 8)
+    out = dict(k, pk=base64.b64encode(bytes(blob)).decode())
+    out["tag"] = fx.rfc4034_key_tag(rdata(out))
+    if ident is not None:
+        out["id"] = ident
+    return out
+
+
+def set_copy_requests(r: Any, bundles: list[dict[str, Any]], members: list[tuple[Any, int]], specs_all: list[dict[str, Any]], stranger: dict[str, Any], tier: str) -> list[tuple[str, int, int, list[dict[str, Any]], str | None]]:
+    """(kind, source, target, request, other rule that may object first): bundle `target` carries a VERBATIM copy of the whole signature
+    SET of the (valid) bundle `source` -- the signatures' own inception / expiration included -- at every ordered (source, target) pair,
+    source before AND after target.  With the SAME key set as the source the copied signatures still prove possession over the
+    bundle's complete key set with their own stated fields: a control that must be accepted.  With any other key set (the target's own,
+    different one; a key added without a signature; one key with a bit changed; one key replaced) the request must be refused: the
+    verdict on a bundle depends on its keys AND its signatures, never on signatures seen in another bundle."""
+    out: list[tuple[str, int, int, list[dict[str, Any]], str | None]] = []
+    nb = len(bundles)
+    positions = list(range(nb)) if (tier == "thorough" or nb <= 4) else sorted({0, 1, nb // 2, nb - 1})
+    for src in positions:
+        for tgt in positions:
+            if src == tgt:
+                continue
+            skeys = bundles[src]["keys"]
+
+            def variant(keys: list[dict[str, Any]]) -> list[dict[str, Any]]:
+                c = clone_request(bundles)
+                c[tgt]["keys"] = [dict(k) for k in keys]
+                c[tgt]["sigs"] = [dict(sg) for sg in bundles[src]["sigs"]]  # verbatim
+                c[tgt]["members"] = []
+                return c
+
+            ks = [dict(k) for k in skeys]
+            r.shuffle(ks)
+            out.append(("control-set-copy:same-key-set", src, tgt, variant(ks), None))
+            if sorted(bundles[src]["members"]) != sorted(bundles[tgt]["members"]):
+                out.append(("set-copy:target-keeps-its-own-key-set", src, tgt, variant(bundles[tgt]["keys"]), None))
+            absent = [sp for sp in specs_all if sp["id"] not in {k["id"] for k in skeys}]
+            extra = r.choice(absent) if absent and r.random() < 0.7 else stranger  # a key of the request that the source lacks, or a key seen nowhere else
+            pos = r.randrange(len(skeys) + 1)
+            out.append(("set-copy:key-added-without-signature", src, tgt, variant(skeys[:pos] + [extra] + skeys[pos:]), None))
+            vi = r.randrange(len(skeys))
+            heavy = tier == "thorough" or nb <= 3 or (src + tgt) % 2 == 0
+            out.append(("set-copy:key-bit-changed-same-identifier", src, tgt, variant(skeys[:vi] + [flipped_key(skeys[vi], r)] + skeys[vi + 1 :]), "bundleKeys"))
+            if heavy:
+                out.append(("set-copy:key-bit-changed-other-identifier", src, tgt, variant(skeys[:vi] + [flipped_key(skeys[vi], r, ident=skeys[vi]["id"] + "-x")] + skeys[vi + 1 :]), None))
+                out.append(("set-copy:key-replaced", src, tgt, variant(skeys[:vi] + [extra] + skeys[vi + 1 :]), None))
+                out.append(("set-copy:key-replaced-same-identifier", src, tgt, variant(skeys[:vi] + [dict(stranger, id=skeys[vi]["id"])] + skeys[vi + 1 :]), "bundleKeys"))
+    return out
+
+
 def strip_request(bundles: list[dict[str, Any]]) -> list[dict[str, Any]]:
     return [{"keys": b["keys"], "sigs": b["sigs"], "inc": b["inc"], "exp": b["exp"]} for b in bundles]
 
 
-def evaluate_request(rec: Any, bundles: list[dict[str, Any]], flag: bool = True) -> dict[str, Any]:
+def evaluate_request(rec: Any, bundles: list[dict[str, Any]], flag: bool = True, tz: str | None = None, per_bundle: bool = True) -> dict[str, Any]:
     """/repo on a whole request: validate_request and check_proof_of_possession, with the verifier's answers recorded"""
     from kskm.ksr.validate import validate_request
     from kskm.ksr.verify_bundles import check_proof_of_possession
 
     req, policy = build_request(bundles, flag)
     rec.take()
-    vr = run_impl(lambda: validate_request(req, policy))
-    pop = run_impl(lambda: check_proof_of_possession(req, policy, _log))
-    return {"validate_request": vr, "check_proof_of_possession": pop, "records": dedupe(rec.take()), "req": req, "policy": policy}
+    with envtz.zone(tz):
+        vr = run_impl(lambda: validate_request(req, policy))
+        pop = run_impl(lambda: check_proof_of_possession(req, policy, _log))
+        records = dedupe(rec.take())
+        # every bundle judged ON ITS OWN by a fresh call (a one-bundle request): nothing can be carried over from the bundles before it
+        alone = [run_impl(lambda b=b: check_proof_of_possession(req.replace(bundles=[b]), policy, _log)) for b in req.bundles] if per_bundle else None
+        rec.take()
+    return {"validate_request": vr, "check_proof_of_possession": pop, "records": records, "req": req, "policy": policy, "per_bundle": alone}
 
 
 def request_lines(ev: dict[str, Any]) -> list[dict[str, Any]]:
@@ -699,6 +776,112 @@ def roll_stream(r: Any, tier: str, pool: dict[str, list[tuple[Any, int]]]) -> li
                 later = any(ki in base[b2]["members"] for b2 in range(b + 1, nb))
                 facts = {"nb": nb, "bundle": b, "key": ki, "same_key_signed_correctly_earlier": earlier, "same_key_signs_later": later, "bundle_holds_other_keys_too": len(base[b]["keys"]) >= 2}
                 out.append((f"roll:{kind}:b{b}of{nb}:k{ki}|{plan}", strip_request(c), kind.startswith("control-"), facts))
+            # whole signature SETS copied verbatim from one bundle into another, at every (source, target) pair
+            import keys as fx
+
+            used = {sp["pk"] for bcase in base for sp in bcase["keys"]}
+            specs_all = list({k["id"]: k for bcase in base for k in bcase["keys"]}.values())
+            stk, salg = r.choice([m for m in pool["rsa1024"] if m[0].dnskey_b64().decode() not in used])
+            stranger = keyspec(fx.make_zsk(stk, salg, "stranger", ttl=172800))
+            for kind, src, tgt, c, other_rule in set_copy_requests(r, base, members, specs_all, stranger, tier):
+                facts = {"nb": nb, "source": src, "target": tgt, "source_before_target": src < tgt, "other_rule_may_object_first": other_rule,
+                         "source_keys": len(base[src]["keys"]), "target_keys": len(c[tgt]["keys"])}
+                out.append((f"roll:{kind}:b{src}->b{tgt}of{nb}|{plan}", strip_request(c), kind.startswith("control-"), facts))
+    return out
+
+
+# ---- environment independence: the process time zone -------------------------------------------------------------------------
+
+
+def tz_bundle_stream(r: Any, tier: str, pool: dict[str, list[tuple[Any, int]]]) -> list[tuple[str, dict[str, Any]]]:
+    """(tag, case with "tz"): honest bundles whose signatures' inception / expiration lie inside and outside the daylight-saving period of
+    each of lib.non_utc_zones() and on the +-1 h lattice around its DST switches (harness/envtz.py), signed independently (dnspython TBS
+    computed from integers), to be judged with the PROCESS time zone switched to that zone -- plus the tamperings of the time fields that a
+    local-time mix-up would tolerate (+-1 h, +- the zone's offset), a signature bit and an omission, which must still be refused."""
+    import keys as fx
+
+    out: list[tuple[str, dict[str, Any]]] = []
+    groups = [("rsa1024", 1), ("rsa1024", 2), ("ec", 1), ("mix", 2), ("rsa1024-sha512", 1), ("rsa2048", 1)]
+    gi = 0
+    for zname, _posix, _off in lib.non_utc_zones():
+        for year in (2030, r.choice([y for y in envtz.YEARS if y != 2030])):
+            for p in envtz.sample(zname, year, r, 9 if tier == "quick" else 40):
+                grp, n = groups[gi % len(groups)]
+                gi += 1
+                if grp == "mix":
+                    members = [r.choice(pool["rsa1024"]), r.choice(pool["ec"])]
+                elif grp == "rsa1024-sha512":
+                    members = [(tk, 10) for tk, _ in r.sample(pool["rsa1024"], n)]
+                else:
+                    members = r.sample(pool[grp], n)
+                names = ["zsk-b", "zsk-a"]
+                ks = [keyspec(fx.make_zsk(tk, alg, names[i], ttl=172800)) for i, (tk, alg) in enumerate(members)]
+                # the probed instant is the inception (expiration three weeks later) or the expiration (inception three weeks earlier)
+                if gi % 2:
+                    inc, exp, role = p["t"] * SEC, (p["t"] + 21 * 86400) * SEC, "inception"
+                else:
+                    inc, exp, role = (p["t"] - 21 * 86400) * SEC, p["t"] * SEC, "expiration"
+                sigs = [sign(tk, k, ks, inc=inc, exp=exp) for (tk, _), k in zip(members, ks)]
+                base = {"keys": ks, "sigs": sigs, "inc": inc, "exp": exp, "tz": zname}
+                plan = f"tz/{zname}/{'dst' if p['dst'] else 'standard'}"
+                note = {"probe": p["label"], "probed_field": role, "year": year, "daylight_saving_time_in_force": p["dst"], "utc_offset": p["offset"], "keys": f"{grp}x{n}"}
+
+                def v(tag: str, **sigkw: Any) -> None:
+                    c = dict(clone(base), inc=inc, exp=exp, tz=zname, probe=note)
+                    if sigkw:
+                        c["sigs"][0].update(sigkw)
+                    out.append((f"{tag}|{plan}", c))
+
+                v("honest:tz")
+                c = dict(clone(base), inc=inc, exp=exp, tz=zname, probe=note, as_set=True)
+                c["keys"].reverse()
+                out.append((f"honest:tz-as-set|{plan}", c))
+                v("control:tz-sub-second", inc=inc + 999_999, exp=exp + 1)
+                s0 = sigs[0]
+                deltas = {3600, -3600, 1, -1, abs(p["offset"]), -abs(p["offset"])}
+                for off in envtz.offset_changes(zname, year):
+                    deltas |= {off[2] - off[1], off[1] - off[2]}
+                for d in sorted(deltas):
+                    if d:
+                        v(f"tamper:tz-sig-inception:{d:+d}s", inc=s0["inc"] + d * SEC)
+                        v(f"tamper:tz-sig-expiration:{d:+d}s", exp=s0["exp"] + d * SEC)
+                v("tamper:tz-sig-bit", sig=flip(s0["sig"], r.randrange(len(base64.b64decode(s0["sig"])) * 8)))
+                c = dict(clone(base), inc=inc, exp=exp, tz=zname, probe=note)
+                del c["sigs"][-1]
+                out.append((f"tamper:tz-omit-signature|{plan}", c))
+    return out
+
+
+def tz_request_stream(r: Any, tier: str, pool: dict[str, list[tuple[Any, int]]]) -> list[tuple[str, list[dict[str, Any]], bool, dict[str, Any], str]]:
+    """(tag, request, expected accept, facts, zone): whole requests whose bundles (10 days apart, signatures valid 21 days) straddle a DST
+    switch of the zone the process is switched to -- honest (must be accepted), and with one signature omitted / bit-flipped / its
+    inception moved by one hour in a bundle on either side of the switch (must be refused)."""
+    out = []
+    for zname, _posix, _off in lib.non_utc_zones():
+        year = r.choice(envtz.YEARS)
+        changes = envtz.offset_changes(zname, year)
+        anchors = [c[0] for c in changes] or [envtz.instants(zname, year)[1]["t"]]
+        for ai, T in enumerate(anchors):
+            nb = r.choice([3, 4]) if tier == "quick" else r.choice([3, 5, 9])
+            lname, layout = r.choice(roll_layouts(nb, r)[:3])
+            members = r.sample(pool["rsa1024"], 4) if ai % 2 == 0 else [r.choice(pool["rsa1024"]), r.choice(pool["ec"]), r.choice(pool["rsa2048"]), r.choice(pool["ec"])]
+            # the switch falls between the first inception and the last expiration; first inception a whole number of hours away from it
+            start = (T - r.choice([1, 12, 25]) * 86400 + r.choice([0, 1800, 3600])) * SEC
+            base = honest_request(members, layout, start=start)
+            plan = f"tz/{zname}/{lname}/{nb}"
+            facts = {"nb": nb, "year": year, "switch": T, "bundles_inception_before_switch": sum(1 for b in base if b["inc"] < T * SEC)}
+            out.append((f"tzroll:honest|{plan}", strip_request(base), True, facts, zname))
+            for b in sorted({0, nb - 1}):
+                c = clone_request(base)
+                del c[b]["sigs"][0]
+                out.append((f"tzroll:omit:b{b}of{nb}|{plan}", strip_request(c), False, facts, zname))
+                c = clone_request(base)
+                c[b]["sigs"][0]["sig"] = flip(c[b]["sigs"][0]["sig"], r.randrange(512))
+                out.append((f"tzroll:sig-bit:b{b}of{nb}|{plan}", strip_request(c), False, facts, zname))
+                for d in (3600, -3600):
+                    c = clone_request(base)
+                    c[b]["sigs"][0]["inc"] += d * SEC
+                    out.append((f"tzroll:sig-inception{d:+d}s:b{b}of{nb}|{plan}", strip_request(c), False, facts, zname))
     return out
 
 
@@ -797,7 +980,11 @@ def run(tier: str, driver_ok: bool) -> Result:
         "layouts with keys re-appearing under one identifier and per-bundle signature times, one signature omitted / misattributed (unknown, "
         "other key) / bit-flipped / taken from another bundle / made by another key at every (bundle position, key) pair (quick: first, second, "
         "middle, last two positions for > 4 bundles), through validate_request and check_proof_of_possession with the model on the same "
-        "request; request pairs A then B in one process (B re-using A's identifiers: signature missing, other keys, other signers, same-tag "
+        "request; verbatim copies of a whole signature set from bundle i into bundle j at every ordered pair (quick: first, second, middle, last for > 4 "
+        "bundles) with the same key set (accepted) / the target's own other key set / a key added, bit-changed or replaced (refused); every whole "
+        "request also judged bundle by bundle through fresh calls; honest and time-tampered bundles / DST-straddling requests judged with the "
+        "process time zone switched to each of four non-UTC zones, signature times inside and outside daylight saving time and +-1 h around the "
+        "switches; request pairs A then B in one process (B re-using A's identifiers: signature missing, other keys, other signers, same-tag "
         "stranger key, A refused then B honest, B == A) with B also judged in a fresh process; non-trivial = distinct bundle / request input"
     )
     r = lib.rng("C07")
@@ -868,6 +1055,12 @@ def run(tier: str, driver_ok: bool) -> Result:
                 todo.append((f"{etag}|ed25519x1", ecase, ev, False))
                 lines.append({"op": "c07_bundle", "bundle": bundle_j(ev["bundle"]), "verify": ev["records"]})
 
+        # ---- environment independence: honest / tampered bundles judged with the process time zone switched
+        for tag, tcase in tz_bundle_stream(r, tier, pool):
+            ev = evaluate_bundle(rec, tcase)
+            todo.append((tag, tcase, ev, False))
+            lines.append({"op": "c07_bundle", "bundle": bundle_j(ev["bundle"]), "verify": ev["records"]})
+
         # ---- multi-bundle requests through validate_request (PoP among the other rules; bad bundle first / middle / last)
         from kskm.common.config_misc import RequestPolicy
         from kskm.common.data import AlgorithmDNSSEC, AlgorithmPolicyECDSA, AlgorithmPolicyRSA, SignaturePolicy
@@ -927,7 +1120,12 @@ def run(tier: str, driver_ok: bool) -> Result:
         # ---- whole requests in ZSK-roll layouts: one signature wrong at every (bundle position, key) pair
         for tag, bundles, want, facts in roll_stream(r, tier, pool):
             ev = evaluate_request(rec, bundles)
-            todo2.append((tag, {"bundles": bundles, "flag": True, "facts": facts}, {"validate_request": ev["validate_request"], "check_proof_of_possession": ev["check_proof_of_possession"], "want": want, "line": len(lines2)}))
+            todo2.append((tag, {"bundles": bundles, "flag": True, "facts": facts}, {"validate_request": ev["validate_request"], "check_proof_of_possession": ev["check_proof_of_possession"], "per_bundle": ev["per_bundle"], "want": want, "line": len(lines2)}))
+            lines2.extend(request_lines(ev))
+        # ---- the same through a switched process time zone: requests that straddle a DST switch
+        for tag, bundles, want, facts, zname in tz_request_stream(r, tier, pool):
+            ev = evaluate_request(rec, bundles, tz=zname)
+            todo2.append((tag, {"bundles": bundles, "flag": True, "facts": facts, "tz": zname}, {"validate_request": ev["validate_request"], "check_proof_of_possession": ev["check_proof_of_possession"], "per_bundle": ev["per_bundle"], "want": want, "line": len(lines2)}))
             lines2.extend(request_lines(ev))
         # ---- state carried between requests: A, then B in this process; B alone in a fresh process
         pairs = pair_stream(r, tier, pool)
@@ -970,6 +1168,9 @@ def run(tier: str, driver_ok: bool) -> Result:
         pop = ev["check_proof_of_possession"]
         vs = ev["validate_signatures"]
         res.bump("impl:" + ("accept" if "ok" in pop else next(iter(pop.values()))))
+        if "tz" in case:
+            res.bump("tz:bundle-under:" + case["tz"])
+            res.bump("tz:probed-instant-" + ("inside" if case["probe"]["daylight_saving_time_in_force"] else "outside") + "-daylight-saving-time")
         res.bump("keys:" + str(len(case["keys"])))
         want = expected_accept(tag)
         indep = independent_accepts(case)
@@ -987,7 +1188,7 @@ def run(tier: str, driver_ok: bool) -> Result:
             res.violation("harness inconsistency: independent oracle and construction disagree (generator or oracle wrong)", rcase, key="oracle:" + kind[1], expected_accept=want, independent_accepts=indep)
         if ("ok" in pop) != want:
             res.violation(
-                "check_proof_of_possession: " + ("an honestly generated bundle is rejected" if want else "a tampered bundle is accepted"),
+                "check_proof_of_possession: " + ("an honestly generated bundle is rejected" if want else "a tampered bundle is accepted") + (f" (process time zone {case['tz']})" if "tz" in case else ""),
                 rcase, key=":".join(kind[:2]), impl=pop, expected_accept=want, independent_accepts=indep,
             )
         elif ("ok" in pop) != indep:
@@ -1054,16 +1255,35 @@ def judge_request(res: Result, tag: str, case: dict[str, Any], ev: dict[str, Any
                     "impl": {k: ev[k] for k in ("validate_request", "check_proof_of_possession", "fresh", "first") if k in ev}, "model": models, "expected_accept": want, "independent_oracle_accepts": indep}, limit=7)
     if indep != want:
         res.violation("harness inconsistency: independent oracle and construction disagree (generator or oracle wrong)", rcase, key=f"oracle:{stream}:{kind[1]}", expected_accept=want, independent_accepts=indep)
+    if "source" in facts:
+        res.bump(f"roll:{kind[1]}:{kind[2]}:" + ("source-before-target" if facts["source_before_target"] else "source-after-target"))
+    if "tz" in case:
+        res.bump("tz:request-under:" + case["tz"])
+    # a rule that runs BEFORE proof of possession inside validate_request and legitimately objects to this input class first (an identifier
+    # denoting two different keys within one request is KSR-BUNDLE-KEYS' business); check_proof_of_possession itself is still judged strictly
+    other_rule = facts.get("other_rule_may_object_first")
     for name in ("validate_request", "check_proof_of_possession"):
         got = ev[name]
         if ("ok" in got) != want or ("ok" in got) != indep:
             res.violation(
                 f"{name}: " + ("an honestly generated request is rejected" if want else "a request with a missing / misattributed / altered signature in one bundle is accepted")
-                + (" (after another request was validated in the same process)" if "after" in case else ""),
-                rcase, key=f"{stream}:{kind[1]}", impl=got, expected_accept=want, independent_accepts=indep, facts=facts,
+                + (" (after another request was validated in the same process)" if "after" in case else "")
+                + (f" (process time zone {case['tz']})" if "tz" in case else ""),
+                rcase, key=f"{stream}:{kind[1]}" + (":" + kind[2] if "source" in facts else ""), impl=got, expected_accept=want, independent_accepts=indep, facts=facts,
             )
-        elif "ok" not in got and got != {"violation": "bundlePop"} and "error" not in got:
+        elif "ok" not in got and got != {"violation": "bundlePop"} and "error" not in got and not (name == "validate_request" and other_rule is not None and got == {"violation": other_rule}):
             res.violation(f"{name}: a proof-of-possession failure is reported as another rule's violation", rcase, key=f"{stream}:class", impl=got)
+    # no state is carried from bundle to bundle: the verdict on the whole request is the verdict on its first refused bundle taken alone
+    alone = ev.get("per_bundle")
+    if alone is not None:
+        first_bad = next((o for o in alone if "ok" not in o), {"ok": None})
+        got = ev["check_proof_of_possession"]
+        if not same_outcome(got, first_bad):
+            res.violation(
+                "check_proof_of_possession: the verdict on a request differs from the verdicts on its bundles taken one at a time (something is carried over from earlier bundles)",
+                rcase, key=f"{stream}:bundle-state", impl=got, per_bundle_alone=alone, expected_accept=want, facts=facts,
+            )
+        res.bump("per-bundle-fresh-verdicts-compared")
     if "after" in case:
         if ("ok" in ev["first"]) != ev["want_first"]:
             res.violation("validate_request: verdict on request A of a pair differs from the proof-of-possession property", {"tag": tag, "bundles": case["after"], "flag": True}, key="pair:first", impl=ev["first"], expected_accept=ev["want_first"])
@@ -1090,13 +1310,14 @@ def replay(obj: dict[str, Any]) -> Any:
         rec = lib.VerifyRecorder().install(sigmod)
         try:
             first = evaluate_request(rec, case["after"])["validate_request"] if "after" in case else None
-            ev = evaluate_request(rec, case["bundles"], case.get("flag", True))
+            ev = evaluate_request(rec, case["bundles"], case.get("flag", True), tz=case.get("tz"))
         finally:
             rec.uninstall()
         ms = run_driver(request_lines(ev), exe=DRIVER)
         out = {"tag": case.get("tag"), "facts": case.get("facts"),
                "bundles": [{"keys": [k["id"] for k in b["keys"]], "signatures_by": [s["id"] for s in b["sigs"]]} for b in case["bundles"]],
-               "implementation": {"validate_request": ev["validate_request"], "check_proof_of_possession": ev["check_proof_of_possession"]},
+               "process_time_zone": case.get("tz") or "(unchanged)",
+               "implementation": {"validate_request": ev["validate_request"], "check_proof_of_possession": ev["check_proof_of_possession"], "each_bundle_alone": ev["per_bundle"]},
                "model": {"validate_request": ms[0], "check_proof_of_possession": ms[1]},
                "independent_oracle_accepts_each_bundle": [independent_accepts(c) for c in case["bundles"]]}
         if "after" in case:
@@ -1113,6 +1334,7 @@ def replay(obj: dict[str, Any]) -> Any:
     m = run_driver([{"op": "c07_bundle", "bundle": bundle_j(ev["bundle"]), "verify": ev["records"]}], exe=DRIVER)[0]
     return {
         "tag": case.get("tag"),
+        "process_time_zone": case.get("tz") or "(unchanged)",
         "implementation": {"validate_signatures": ev["validate_signatures"], "check_proof_of_possession": ev["check_proof_of_possession"]},
         "verifier_calls_recorded": [{k: (e[k][:40] + "...") if isinstance(e[k], str) and len(e[k]) > 40 else e[k] for k in e} for e in ev["records"]],
         "model": {k: m.get(k) for k in ("validate_signatures", "check_proof_of_possession")} if isinstance(m, dict) else m,
